@@ -4,16 +4,28 @@
    Full statement (kept visible; the oracle of Spec/C20.v is its executable form):
      forall h, in_scope h = true -> exists tr, run h = Some tr /\ oracle h tr = true
    (h: any sequence of ADDRMAP lines, clock advances, lookups and listener registrations.)
+   (h: any sequence of ADDRMAP lines in every form the control-spec allows -- the all-positional
+   `name addr "local" "utc"` form included, the UTC time being the one that counts --, clock advances,
+   lookups and registrations of listeners, passive or ACTIVE: a listener may look keys up, feed the map
+   a newer mapping for the same name, or raise, from inside addrmap_added / addrmap_expired.)
    It is FALSE of the faithful model -- and of the code -- on two input classes, each an open
    finding with a witness below (C20_*_refuted):
      C20-F2 key_collision  a string used both as a name and as an address: entries overwrite each other
-     C20-F3 stale_lookup   a lookup right after a mapping that arrived already expired, before time passes
-   (C20-F1, an <error> mapping for a name that is not held, was repaired in /repo by a1d3211; the
-   model follows the repaired code and that class is now covered by C20_oracle_partial.)
+     C20-F3 stale_lookup   a lookup (by the caller or from inside a callback) while a held mapping has
+                           reached its expiry and its timer has not run yet
+   (C20-F1, an <error> mapping for a name that is not held, was repaired in /repo by a1d3211, and
+   C20-F4, a raising listener starved the listeners registered after it, by a2f579a; the model follows
+   the repaired code and both classes are now covered by C20_oracle_partial; C20_raise_starves_now_accepted
+   anchors the old witness of F4.)
    C20_oracle_partial proves the full statement for ALL histories outside these two classes (its
-   two extra hypotheses are exactly the complements of the finding predicates of Spec/C20.v).
+   two extra hypotheses are exactly the complements of the finding predicates of Spec/C20.v); this
+   includes what the statement demands inside a callback: the expired mapping is already gone under
+   every key, a mapping fed from inside the callback is an event like any other, every listener hears
+   every transition exactly once.
    The remaining theorems state the clauses of the property one by one, for all histories, with
-   only the hypotheses each clause needs. *)
+   only the hypotheses each clause needs.  `feedless h`: no listener of h feeds the map -- a listener that
+   answers 'expired' with a newer mapping rightly makes the name findable again, so the two theorems
+   about what is found right after one event carry it. *)
 From Coq Require Import List Bool Ascii Arith NArith ZArith.
 From TxVerif Require Import Lib.Bytes Spec.C20 Model.AddrMap Proofs.C20Proofs.
 Import ListNotations.
@@ -35,6 +47,17 @@ Theorem C20_stale_lookup_refuted : exists h,
   exists tr, run h = Some tr /\ oracle h tr = false.
 Proof. exact stale_refuted_ex. Qed.
 Print Assumptions C20_stale_lookup_refuted.
+
+(* the witness of the repaired finding C20-F4 (listener 1 raises inside addrmap_expired, listener 2
+   follows): in scope, outside the two open classes, and the oracle accepts the model's trace, in which
+   listener 2 hears the expiry *)
+Theorem C20_raise_starves_now_accepted :
+  in_scope wit_starve = true /\ key_collision wit_starve = false /\ stale_lookup wit_starve = false /\
+  run wit_starve = Some [[]; []; [EAdded 1 (str n_a) (str ip1); EAdded 2 (str n_a) (str ip1)];
+                         [EExpired 1 (str n_a); ESub ERaised; EExpired 2 (str n_a)]] /\
+  match run wit_starve with Some tr => oracle wit_starve tr | None => false end = true.
+Proof. exact starve_accepted. Qed.
+Print Assumptions C20_raise_starves_now_accepted.
 
 (* The map finds exactly the names the reference semantics HOLDS, with the latest address and
    expiry: full strength up to F2 (no F3 hypothesis). *)
@@ -58,8 +81,9 @@ Theorem C20_lookup_iff_unexpired_partial : forall h n m,
 Proof. exact lookup_iff_unexpired. Qed.
 Print Assumptions C20_lookup_iff_unexpired_partial.
 
-(* the extra hypothesis of the previous theorem holds for every name once any time has passed *)
-Theorem C20_fresh_after_advance : forall h dt n,
+(* the extra hypothesis of the previous theorem holds for every name once any time has passed
+   (in_scope: a listener may not feed, from inside the callback, a mapping that is already expired) *)
+Theorem C20_fresh_after_advance : forall h dt n, in_scope h = true ->
   due_in (s_now (spec_after (h ++ [OAdvance dt]))) (s_map (spec_after (h ++ [OAdvance dt]))) n = false.
 Proof. exact after_advance_fresh. Qed.
 Print Assumptions C20_fresh_after_advance.
@@ -67,7 +91,7 @@ Print Assumptions C20_fresh_after_advance.
 (* "a later event for the same name replaces the address and moves expiry to the new time, earlier or
    later, however far in the future": whatever happened before, t is any Z *)
 Theorem C20_expiry_moves_both_ways_partial : forall h ts n a t dt m,
-  in_scope h = true -> key_collision (h ++ [OEv ts]) = false ->
+  in_scope h = true -> key_collision (h ++ [OEv ts]) = false -> feedless h = true ->
   parse_ev ts = Some {| v_name := n; v_addr := Some a; v_exp := XAt t |} ->
   state_after (h ++ [OEv ts; OAdvance dt]) = Some m ->
   find m n = if (t <=? s_now (spec_after h) + Z.of_N dt)%Z then [ENotFound] else [EFound n a (Some t)].
@@ -86,7 +110,7 @@ Print Assumptions C20_never_persists_partial.
 
 (* "error mappings are dropped at once" *)
 Theorem C20_error_dropped_at_once_partial : forall h ts n x m,
-  in_scope h = true -> key_collision (h ++ [OEv ts]) = false ->
+  in_scope h = true -> key_collision (h ++ [OEv ts]) = false -> feedless h = true ->
   parse_ev ts = Some {| v_name := n; v_addr := None; v_exp := x |} ->
   state_after (h ++ [OEv ts]) = Some m ->
   find m n = [ENotFound].
@@ -109,12 +133,21 @@ Theorem C20_model_total : forall h, in_scope h = true -> key_collision h = false
 Proof. exact state_exists. Qed.
 Print Assumptions C20_model_total.
 
-(* the hypotheses are satisfiable by a non-trivial history: a 2-day mapping shortened to 5 s, looked
-   up before and after, one listener *)
+(* the hypotheses are satisfiable by a non-trivial history: a 2-day mapping shortened to 5 s by a line
+   in the all-positional form whose local time is 5 h ahead of the UTC time; listener 1 looks the name
+   and the address up from inside both callbacks and answers 'expired' with a newer mapping that lives
+   5 s; listener 2 only records *)
 Example C20_nonvacuous :
-  let h := [OAddL 1; OEv [W n_a; W ip1; T 1382400; X 1382400]; OEv [W n_a; W ip1; T 40; X 40];
-            OAdvance 39; OFind (str n_a); OAdvance 1; OFind (str n_a); OFind (str ip1)] in
+  let a := str n_a in let i1 := str ip1 in let i2 := str ip2 in
+  let h := [OAddL 1 {| b_added := [AFindName]; b_expired := [AFindName; AFindKey i1; AFeed i2 (FIn 5)] |};
+            OAddL 2 passive_l;
+            OEv [W n_a; W ip1; T 1382400; X 1382400]; OEv [W n_a; W ip1; T 144040; T 40];
+            OAdvance 39; OFind a; OAdvance 1; OFind a; OFind i1; OAdvance 40; OFind a] in
   in_scope h = true /\ key_collision h = false /\ stale_lookup h = false /\
-  run h = Some [[]; [EAdded 1 (str n_a) (str ip1)]; []; []; [EFound (str n_a) (str ip1) (Some 40%Z)];
-                [EExpired 1 (str n_a)]; [ENotFound]; [ENotFound]].
+  run h = Some [[]; []; [EAdded 1 a i1; ESub (EFound a i1 (Some 1382400%Z)); EAdded 2 a i1]; []; [];
+                [EFound a i1 (Some 40%Z)];
+                [EExpired 1 a; ESub ENotFound; ESub ENotFound; ESub (EAdded 1 a i2); ESub (EAdded 2 a i2); EExpired 2 a];
+                [EFound a i2 (Some 80%Z)]; [ENotFound];
+                [EExpired 1 a; ESub ENotFound; ESub ENotFound; ESub (EAdded 1 a i2); ESub (EAdded 2 a i2); EExpired 2 a];
+                [EFound a i2 (Some 120%Z)]].
 Proof. vm_compute. auto 6. Qed.
